@@ -26,6 +26,8 @@ struct Cx<'a> {
     n: u64,
     distinct: u64,
     thorough: bool,
+    /// Miri / valgrind sized workload
+    small: bool,
     idx: usize,
     variant: u32,
 }
@@ -815,19 +817,26 @@ fn run_format<const FMT: u128, const NOSEP: u128>(cx: &mut Cx, d: &Desc, idx: us
         return;
     }
     let extra_types = idx % 4 == 0;
-    let ntok = if cx.thorough { 120_000 } else { 12_000 };
+    let ntok = if cx.small { 48 } else if cx.thorough { 120_000 } else { 12_000 };
     for variant in 0..nvariants {
         cx.variant = variant;
         let fo = mk_opts(d, variant, &mut Rng::stream(seed, 9500 + idx as u64 * 3 + variant as u64));
         let mut inputs: Vec<Vec<u8>> = Vec::new();
         let alpha = alphabet(d, &fo.p);
-        let maxlen = if variant == 0 { if cx.thorough { 5 } else { 4 } } else { 3 };
+        let maxlen = if cx.small { if variant == 0 { 2 } else { 1 } } else if variant == 0 { if cx.thorough { 5 } else { 4 } } else { 3 };
         all_strings(&alpha, maxlen, &mut inputs);
         for _ in 0..ntok {
             inputs.push(token_float(&mut rng, d, &fo.p));
         }
         long_floats(&mut rng, d, &fo.p, cx.thorough, &mut inputs);
-        hostile(&mut rng, d, &fo.p, ntok / 8, variant == 0, &mut inputs);
+        if cx.small {
+            // keep one literal per length class (7..40 digits reach the SWAR, many-digit and big-integer paths)
+            let keep: Vec<Vec<u8>> = inputs.iter().rev().take(48).step_by(5).cloned().collect();
+            let n = inputs.len() - 48;
+            inputs.truncate(n);
+            inputs.extend(keep.into_iter().filter(|s| s.len() < 120));
+        }
+        hostile(&mut rng, d, &fo.p, if cx.small { 16 } else { ntok / 8 }, variant == 0 && !cx.small, &mut inputs);
         // special strings neighbourhood (exhaustive single-case-flips, prefixes, extensions)
         for sp in [&fo.p.nan, &fo.p.inf, &fo.p.infinity].into_iter().flatten() {
             for sign in [&b""[..], b"+", b"-"] {
@@ -900,7 +909,7 @@ fn run_format<const FMT: u128, const NOSEP: u128>(cx: &mut Cx, d: &Desc, idx: us
     let p0 = POpts::standard();
     let mut alpha = alphabet(d, &p0);
     alpha.retain(|&c| c != b'.' && c != b'e' && c != b'E');
-    all_strings(&alpha, if cx.thorough { 5 } else { 4 }, &mut inputs);
+    all_strings(&alpha, if cx.small { 2 } else if cx.thorough { 5 } else { 4 }, &mut inputs);
     for _ in 0..ntok / 2 {
         inputs.push(token_int(&mut rng, d));
     }
@@ -982,6 +991,7 @@ fn main() {
     rep.note("fmt_seed", FMT_SEED.to_string());
     let prop = args.get("prop").map(|s| s.to_string());
     let thorough = args.thorough();
+    let small = args.get("small").is_some() || cfg!(miri);
     let replay_idx: Option<usize> = args.get("idx").map(|s| s.parse().unwrap());
     let replay_in = args.get("replay").map(report::unshow);
     let replay_ty = args.get("type").unwrap_or("f64").to_string();
@@ -989,7 +999,7 @@ fn main() {
     let nfmt = args.get_u64("nfmt", 64) as usize;
     let total = std::sync::Mutex::new(0u64);
     report::parallel(if replay_in.is_some() { 1 } else { args.threads }, |shard, nshards| {
-        let mut cx = Cx { rep: &rep, cfg: cfg.clone(), prop: prop.clone(), counts: BTreeMap::new(), arena: Arena::new(1 << 16), n: shard as u64, distinct: 0, thorough, idx: 0, variant: 0 };
+        let mut cx = Cx { rep: &rep, cfg: cfg.clone(), prop: prop.clone(), counts: BTreeMap::new(), arena: Arena::new(1 << 16), n: shard as u64, distinct: 0, thorough, small, idx: 0, variant: 0 };
         macro_rules! go {
             ($($i:literal)*) => {$(
                 {
